@@ -681,6 +681,28 @@ func (ev *Env) call(e *ECall) Value {
 	if sf, ok := fx.E.specFuncs[e.Fun]; ok {
 		return sf(ev, e)
 	}
+	if ar, ok := fx.E.S.Ghosts[e.Fun]; ok {
+		if len(e.Args) != ar {
+			ev.errf("ghost %s expects %d arguments", e.Fun, ar)
+		}
+		var ts []Term
+		for _, a := range e.Args {
+			v := ev.eval(a)
+			switch v.Kind {
+			case KInt:
+				ts = append(ts, v.T)
+			case KIface:
+				ts = append(ts, v.T)
+			default:
+				ev.errf("ghost %s: scalar or pointer arguments only", e.Fun)
+			}
+		}
+		if fx.enc.ghosts == nil {
+			fx.enc.ghosts = map[string]int{}
+		}
+		fx.enc.ghosts[e.Fun] = ar
+		return IntV(app("g!"+e.Fun, ts...), tInt)
+	}
 	ev.errf("unknown function %q in contract", e.Fun)
 	return Value{}
 }
